@@ -59,6 +59,7 @@ where
     ) -> Result<(), GrevmError<DB::Error>> {
         let txid = self.scheduler_ctx.committed_idx().min(self.block_size.saturating_sub(1));
         // This flag only elects the single execution caller and never publishes scheduler data.
+        vpoint!(RUN_ONCE);
         self.started.compare_exchange(false, true, Ordering::Relaxed, Ordering::Relaxed).map_err(
             |_| GrevmError {
                 txid,
@@ -129,6 +130,19 @@ where
     pub(super) fn abort(&self, abort_reason: AbortReason<DB::Error>) {
         // Preserve the first abort cause. Publish it before the release-store so acquire readers
         // that observe `abort` can also observe the reason.
+        vpoint!(ABORT);
+        vobs!(
+            ABORT,
+            0,
+            match &abort_reason {
+                AbortReason::FatalEvmError(_) => 1,
+                AbortReason::CommitError(_) => 2,
+                AbortReason::ParallelError { .. } => 3,
+                AbortReason::FallbackSequential => 4,
+            },
+            0,
+            0
+        );
         self.abort_reason.get_or_init(|| abort_reason);
         self.cancel();
     }
@@ -138,6 +152,7 @@ where
     /// This is used while unwinding a panic: peers must leave their wait loops, but the panic—not
     /// [`AbortReason`]—remains the authoritative failure signal.
     pub(super) fn cancel(&self) {
+        vpoint!(ABORT);
         self.abort.store(true, Ordering::Release);
         self.finality_wait.notify();
         self.commit_wait.notify();
